@@ -27,6 +27,32 @@ inductive Atom where
   | int (i : Int)
   deriving DecidableEq, Repr, Inhabited
 
+mutual
+/-- structural equality (numbers by representation) -/
+def Json.beq : Json → Json → Bool
+  | .null, .null => true
+  | .bool a, .bool b => a == b
+  | .num a, .num b => a.m == b.m && a.e == b.e
+  | .str a, .str b => a == b
+  | .arr xs, .arr ys => Json.beqL xs ys
+  | .obj xs, .obj ys => Json.beqKV xs ys
+  | _, _ => false
+def Json.beqL : List Json → List Json → Bool
+  | [], [] => true
+  | x :: xs, y :: ys => Json.beq x y && Json.beqL xs ys
+  | _, _ => false
+def Json.beqKV : List (List Char × Json) → List (List Char × Json) → Bool
+  | [], [] => true
+  | x :: xs, y :: ys => x.1 == y.1 && Json.beq x.2 y.2 && Json.beqKV xs ys
+  | _, _ => false
+end
+
+/-- number of members of an object / items of an array -/
+def Json.width : Json → Nat
+  | .arr xs => xs.length
+  | .obj kvs => kvs.length
+  | _ => 0
+
 def Json.isNull : Json → Bool
   | .null => true
   | _ => false
